@@ -228,10 +228,70 @@ def _alias_block(blk, log, fq):
                     del inner[i]
                     log.append((fq, v.get("name"), "reference alias written out"))
                     continue
+            if t.rstrip().endswith("*") and init is not None and _ptr_alias(inner, i, v, init, log, fq):
+                continue
         i += 1
     for c in inner:
         if c:
             _rec3(c, log, fq)
+
+
+def _ptr_alias(inner, i, v, init, log, fq):
+    """`const T * p = V.data() + e;` (or `&V[e]`, or `V.data()`)  ...  p[k]   ->   V[e + k]: a row pointer into a vector is that
+    row.  Only when p is used for nothing else than subscripts and the variables of e are not assigned in the rest of the block."""
+    cont, off = None, None
+    rng = v.get("range", {})
+
+    def data_of(x):
+        x = strip(x, casts=True)
+        if x.get("kind") == "CXXMemberCallExpr" and kids(x) and kids(x)[0].get("kind") == "MemberExpr" and \
+                kids(x)[0].get("name") == "data" and len(kids(x)) == 1 and kids(kids(x)[0]):
+            return kids(kids(x)[0])[0]
+        return None
+    if init.get("kind") == "BinaryOperator" and init.get("opcode") == "+" and data_of(kids(init)[0]) is not None:
+        cont, off = data_of(kids(init)[0]), kids(init)[1]
+    elif data_of(init) is not None:
+        cont, off = data_of(init), {"kind": "IntegerLiteral", "value": "0", "type": {"qualType": "int"}, "range": rng}
+    elif init.get("kind") == "UnaryOperator" and init.get("opcode") == "&" and subscript(strip(kids(init)[0], casts=True)) is not None:
+        cont, off = subscript(strip(kids(init)[0], casts=True))
+    if cont is None:
+        return False
+    cont_s = strip(cont, casts=True)
+    if cont_s.get("kind") not in ("DeclRefExpr", "MemberExpr"):
+        return False
+    if not all(x.get("kind") in ("DeclRefExpr", "MemberExpr", "CXXThisExpr", "ImplicitCastExpr", "ParenExpr", "IntegerLiteral") or
+               (x.get("kind") == "BinaryOperator" and x.get("opcode") in ("+", "-", "*")) for x in walk(off)):
+        return False
+    vid = v.get("id")
+    rest = [inner[j] for j in range(i + 1, len(inner)) if inner[j]]
+    idx_ids = {x.get("referencedDecl", {}).get("id") for x in walk(off) if x.get("kind") == "DeclRefExpr"}
+    if idx_ids & _assigned_names(rest) or vid in _assigned_names(rest):
+        return False
+    uses, subs = [], []
+    for b in rest:
+        for x in walk(b):
+            if x.get("kind") == "DeclRefExpr" and x.get("referencedDecl", {}).get("id") == vid:
+                uses.append(x)
+            if x.get("kind") == "ArraySubscriptExpr" and kids(x):
+                b0 = strip(kids(x)[0], casts=True)
+                if b0.get("kind") == "DeclRefExpr" and b0.get("referencedDecl", {}).get("id") == vid:
+                    subs.append(x)
+    if not uses or len(uses) != len(subs):
+        return False
+    ety = v.get("type", {}).get("qualType", "double").replace("*", "").replace("const ", "").strip()
+    for x in subs:
+        k = kids(x)[1]
+        x["kind"] = "CXXOperatorCallExpr"
+        x["inner"] = [{"kind": "ImplicitCastExpr", "type": {"qualType": "fn"}, "range": rng,
+                       "inner": [{"kind": "DeclRefExpr", "type": {"qualType": "fn"}, "range": rng,
+                                  "referencedDecl": {"id": "op[]", "kind": "CXXMethodDecl", "name": "operator[]"}}]},
+                      copy.deepcopy(cont_s),
+                      {"kind": "BinaryOperator", "opcode": "+", "type": {"qualType": "int"}, "range": x.get("range", rng),
+                       "inner": [copy.deepcopy(off), k]}]
+        x["type"] = {"qualType": ety}
+    del inner[i]
+    log.append((fq, v.get("name"), "row pointer written out"))
+    return True
 
 
 def _rec3(n, log, fq):
